@@ -247,6 +247,31 @@ fn c11_scn(label: &str, mask: Option<&'static str>, defm: (bool, bool, bool, boo
         s.probes_for.push((slot, "MODE {me}"));
     }
     s.probe_focus = Some(Focus { cats: vec![], relays: false, relay_verbs: None, actor: true, actor_codes: Some(vec!["221"]), closes: false });
+    // several operator commands in one segment: the second acts while the first one's victim
+    // is still winding up
+    s.extra_actions = Some(Box::new(|scn, v| {
+        let mut acts = vec![];
+        for p in &scn.parts {
+            if p.slot > 1 {
+                continue;
+            }
+            if let Some(me) = v.nick(p.slot) {
+                if !v.m.users.get(me).map_or(false, |u| u.o) {
+                    continue;
+                }
+                for q in &scn.parts {
+                    if q.slot == p.slot {
+                        continue;
+                    }
+                    if let Some(peer) = v.nick(q.slot) {
+                        acts.push(Act::Raw(p.slot, format!("KILL {} :c\r\nDIE :closing\r\n", peer).into_bytes()));
+                        acts.push(Act::Raw(p.slot, format!("KILL {} :c\r\nKILL {} :again\r\nWALLOPS :w\r\n", peer, peer).into_bytes()));
+                    }
+                }
+            }
+        }
+        acts
+    }));
     s
 }
 
@@ -342,6 +367,75 @@ fn c19_scn(name: &str, full: bool) -> ChatScn {
     s.probes_for.push((0, "USERHOST carol caro dan nosuch"));
     s.probe_focus = Some(Focus { cats: vec![], relays: false, relay_verbs: None, actor: true, actor_codes: Some(vec!["251", "252", "254", "255", "265", "266", "303", "302"]), closes: false });
     s
+}
+
+/// Channels are created and destroyed by every means (PART, KICK of the last member by
+/// himself, QUIT): LUSERS 254 and LIST follow.
+fn c19_channels_scn() -> ChatScn {
+    let mut s = c19_scn("c19-channel-count", false);
+    s.alphabet_for.retain(|(slot, t)| *slot < 2 && ["JOIN #x", "PART #x", "QUIT"].contains(t));
+    for slot in 0..2 {
+        for t in ["MODE #x +o {peer}", "KICK #x {me}", "KICK #x {peer}", "JOIN #y", "KICK #y {me}"] {
+            s.alphabet_for.push((slot, t));
+        }
+    }
+    s.extra_actions = None;
+    s.invariants = vec!["invisible-count", "operators-count", "max-users", "empty-channel", "membership-symmetry"];
+    s.focus.cats.push(Cat::Ranks);
+    s
+}
+
+/// "A WHOWAS record of it is kept": the same nickname is used by one session after another
+/// (and released by renames in between); after every release the newest record is the one
+/// just released, and records come newest first.
+fn c06_whowas_reuse() -> crate::run::PartResult {
+    use crate::run::PartResult;
+    let t0 = std::time::Instant::now();
+    let mut r = PartResult::new("fun:c06-whowas-reuse", "E-FUN");
+    let mut w = World::new(oper_cfg(None).main_config(), 3);
+    let fv = |f: Finding, k: usize| crate::bfs::Violation { scenario: "fun:c06-whowas-reuse".into(), sig: f.sig, detail: f.detail, history: vec![], transcript: vec![format!("session {}", k)] };
+    if w.register(0, "watcher", "wu").is_err() {
+        r.machinery = Some("setup".into());
+        return r;
+    }
+    for k in 1..=8usize {
+        r.evaluations += 1;
+        let user = format!("user{}", k);
+        let released = if k % 3 == 0 {
+            // released by a rename instead of a session end
+            w.register(1, "reuse", &user).and_then(|_| w.send(1, "NICK other")).and_then(|_| w.send(1, "QUIT"))
+        } else if k % 3 == 1 {
+            w.register(1, "reuse", &user).and_then(|_| w.send(1, "QUIT"))
+        } else {
+            w.register(1, "reuse", &user).and_then(|_| w.eof(1))
+        };
+        if let Err(e) = released {
+            r.machinery = Some(e.0);
+            break;
+        }
+        w.take_all();
+        let _ = w.send(0, "WHOWAS reuse 1");
+        let newest = w.take_lines(0);
+        if !newest.iter().any(|l| l.contains(" 314 ") && l.contains(&format!("~{} ", user))) {
+            r.violations.push(fv(finding("whowas:newest-missing", format!("after session {} (user {}) released the nick, WHOWAS reuse 1 answers {:?}", k, user, newest)), k));
+        }
+        let _ = w.send(0, "WHOWAS reuse");
+        let all: Vec<String> = w.take_lines(0).into_iter().filter(|l| l.contains(" 314 ")).collect();
+        if all.first().map_or(true, |l| !l.contains(&format!("~{} ", user))) {
+            r.violations.push(fv(finding("whowas:order", format!("after session {}: the first WHOWAS record is not the newest: {:?}", k, all)), k));
+        }
+        if w.conns.iter().any(|c| matches!(c.life, Life::Panicked(_))) {
+            r.violations.push(fv(finding("whowas:panic", "a connection task aborted".into()), k));
+        }
+    }
+    r.states = r.evaluations;
+    r.transitions = r.evaluations * 4;
+    r.distinct = r.evaluations;
+    r.traces = r.evaluations;
+    r.exhaustive = true;
+    r.samples = vec![serde_json::json!({"sessions": 8, "releases": "QUIT, EOF, rename+QUIT in turn"})];
+    r.wall_s = t0.elapsed().as_secs_f64();
+    r
 }
 
 /// Statistics when every user starts as a local operator.
@@ -526,6 +620,7 @@ pub fn plan(property: &str, quick: bool) -> Plan {
                 Part::Bfs(Box::new(c06_ghost(!quick)), lim(if quick { 6 } else { 8 }, 2_000_000, t(20.0, 600.0))),
                 // an ending applied while another connection takes over the nickname: every interleaving (E-INT)
                 Part::Custom("int:kill-vs-reregistration".into(), Box::new(|| super::c18::burst_part("kill-vs-reregistration"))),
+                Part::Custom("fun:c06-whowas-reuse".into(), Box::new(c06_whowas_reuse)),
             ],
         },
         "C11" => Plan {
@@ -543,6 +638,7 @@ pub fn plan(property: &str, quick: bool) -> Plan {
                 p.push(Part::Bfs(Box::new(c19_ghost(!quick)), lim(if quick { 6 } else { 8 }, 2_000_000, t(20.0, 600.0))));
                 // every user starts as a local operator (default_user_modes.local_oper): OPER, -o, -O, endings
                 p.push(Part::Bfs(Box::new(c19_localoper_scn(!quick)), lim(if quick { 4 } else { 5 }, 2_000_000, t(20.0, 600.0))));
+                p.push(Part::Bfs(Box::new(c19_channels_scn()), lim(if quick { 6 } else { 7 }, 2_000_000, t(20.0, 600.0))));
                 for max in [1usize, 2, 3] {
                     p.push(Part::Bfs(Box::new(Slots { max, with_password: false }), lim(if quick { 7 } else { 10 }, 2_000_000, t(5.0, 300.0))));
                 }
